@@ -331,6 +331,8 @@ func (r *cdpRunner) step() {
 		r.priceMove()
 	case x < 912 && r.cfg.reserve:
 		r.reserveOp()
+	case x < 926 && r.cfg.reserve && r.cfg.liquidateMsg:
+		r.externalLiqOp()
 	default:
 		gap := time.Duration(1+r.rnd.Intn(20)) * time.Second
 		switch r.rnd.Intn(12) {
@@ -459,7 +461,8 @@ func (r *cdpRunner) reserveOp() {
 	}
 	app := uint64(appBeacon)
 	if r.rnd.Intn(8) == 0 {
-		app = u.cdpApps[r.rnd.Intn(len(u.cdpApps))]
+		apps := u.reserveApps()
+		app = apps[r.rnd.Intn(len(apps))]
 	}
 	r.tx("reserve_fund", a, &liqV2types.MsgAppReserveFundsRequest{From: a.Addr.String(), AppId: app, AssetId: as.ID, TokenQuantity: sdk.NewCoin(d, sdk.NewIntFromBigInt(amt))}, fmt.Sprintf("app=%d %s%s", app, amt, d))
 }
@@ -799,9 +802,13 @@ func (r *cdpRunner) limitBidOp() {
 			x := live[r.rnd.Intn(len(live))]
 			if x.CollateralTokenAuctionPrice.GT(x.CollateralTokenOraclePrice) && x.CollateralTokenInitialPrice.IsPositive() {
 				// nobody bids until the posted price has fallen to the oracle price: one long block gap
-				// (linear decrease: price(t) = initial * (1 - t*(1-discount)/duration), discount 0.7, duration 3600 s)
+				// (linear decrease: price(t) = initial * (1 - t*(1-discount)/duration), the app's discount, duration 3600 s)
+				disc := dec("0.7")
+				if w, ok := u.c.App.NewliqKeeper.GetLiquidationWhiteListing(u.c.Ctx(), x.AppId); ok && w.DutchAuctionParam != nil && w.DutchAuctionParam.Discount.LT(sdk.OneDec()) {
+					disc = w.DutchAuctionParam.Discount
+				}
 				frac := sdk.OneDec().Sub(x.CollateralTokenOraclePrice.Quo(x.CollateralTokenInitialPrice))
-				need := frac.MulInt64(12000).TruncateInt64() - int64(u.c.Header.Time.Sub(x.StartTime).Seconds()) + 20
+				need := frac.Mul(sdk.NewDec(3600).Quo(sdk.OneDec().Sub(disc))).TruncateInt64() - int64(u.c.Header.Time.Sub(x.StartTime).Seconds()) + 20
 				if need > 0 && need < 3500 {
 					r.block(time.Duration(need) * time.Second)
 					if y, ok := r.last.AucV2[x.AuctionId]; ok {
